@@ -31,6 +31,76 @@ type Block struct {
 	symbolsBase int
 }
 
+// checkSymbols verifies that every predicate name and string of the block denotes a symbol of the
+// table as it stands once the block's own symbols have been added. An index that nothing resolves yet
+// would otherwise be given a meaning by whatever symbols a later block brings.
+func (b *Block) checkSymbols(symbols *datalog.SymbolTable) error {
+	var term func(t datalog.Term) bool
+	term = func(t datalog.Term) bool {
+		switch v := t.(type) {
+		case datalog.String:
+			return symbols.Has(v)
+		case datalog.Set:
+			for _, e := range v {
+				if !term(e) {
+					return false
+				}
+			}
+		}
+		return true
+	}
+	predicate := func(p datalog.Predicate) bool {
+		if !symbols.Has(p.Name) {
+			return false
+		}
+		for _, t := range p.Terms {
+			if !term(t) {
+				return false
+			}
+		}
+		return true
+	}
+	rule := func(r datalog.Rule) bool {
+		if !predicate(r.Head) {
+			return false
+		}
+		for _, p := range r.Body {
+			if !predicate(p) {
+				return false
+			}
+		}
+		for _, e := range r.Expressions {
+			for _, op := range e {
+				if v, ok := op.(datalog.Value); ok && !term(v.ID) {
+					return false
+				}
+			}
+		}
+		return true
+	}
+
+	if b.facts != nil {
+		for _, f := range *b.facts {
+			if !predicate(f.Predicate) {
+				return ErrMissingSymbols
+			}
+		}
+	}
+	for _, r := range b.rules {
+		if !rule(r) {
+			return ErrMissingSymbols
+		}
+	}
+	for _, c := range b.checks {
+		for _, q := range c.Queries {
+			if !rule(q) {
+				return ErrMissingSymbols
+			}
+		}
+	}
+	return nil
+}
+
 func (b *Block) Code(symbols *datalog.SymbolTable) string {
 	debug := &datalog.SymbolDebugger{
 		SymbolTable: symbols,
